@@ -173,7 +173,8 @@ def buffers_bounded_by_amount(ctx):
             ctx.ob(y, c, ps is not None and norm(ps) == y.params[2], f'part_size must be the chunk size, got {norm(ps)}')
     # DeferQueue single producer
     for cf, c, r in q.callers_of(ctx, 'download.DeferQueue.request_writes'):
-        ctx.ob(cf, c, cf.qualname == 'download.DownloadNonSeekableOutputManager.queue_file_io_task',
+        ctx.ob(cf, c, cf.cls is not None and cf.cls.qualname == 'download.DownloadNonSeekableOutputManager'
+               and cf.name in ('queue_file_io_task', 'get_io_write_tasks'),
                'the defer queue may only be fed by the non-seekable manager (behind tagged GetObjectTasks)')
     # chunksize handed to the part iterator is the adjusted one
     sm = ctx.func('upload.UploadSubmissionTask._submit_multipart_request')
